@@ -54,6 +54,9 @@ type CallOpts struct {
 	Headers     []KV
 	ContentType string
 	Helpers     []KV
+	// Extra: per-call options the lab discovered in the emitted client beyond the documented ones
+	// (K = option name without the With<Service> prefix, V = argument text)
+	Extra []KV
 }
 
 // Invoker calls one RPC through a generated client.
